@@ -271,7 +271,7 @@ def handler_tables(sess):
     return out
 
 
-def explore_decoder(sess, name, handler, render=True, extra_setup=None, window_name=None):
+def explore_decoder(sess, name, handler, render=True, extra_setup=None, window_name=None, post=None):
     """all paths of handler(parser, events) followed by str(result)."""
     it = sess.it
     vn = VnodeContract(it)
@@ -302,6 +302,8 @@ def explore_decoder(sess, name, handler, render=True, extra_setup=None, window_n
         text = to_str(it, result) if render else None
         ctx.notes['text'] = text
         ctx.notes['phase'] = 'done'
+        if post:
+            post(ctx, w, p, result)
         return result
 
     prs = sess.explore(thunk)
@@ -310,6 +312,8 @@ def explore_decoder(sess, name, handler, render=True, extra_setup=None, window_n
         w, p, _ = pr.notes['holder']
         s = PathSummary(name, pr, pr.notes.get('result'), pr.notes.get('text'), p, w, None)
         s.lookups = pr.notes.get('lookups', [])
+        s.obligations = pr.obligations
+        s.notes = pr.notes
         out.append(s)
     return out
 
@@ -441,10 +445,11 @@ class ParseEventListContract:
         tc = parser.fields['trace_codes']
         eid = e0.fields['eventid']
         present = it.lib.symmap_contains(it, tc, eid)
-        if not ctx.branch(present):
-            return None
         name_t = z3.Select(tc.val, zi(eid))
         known = z3.Or([name_t == intern_str(k) for k in self.handlers])
+        ctx.notes.setdefault('pel', []).append({'events': events, 'present': present, 'known': known, 'name': name_t})
+        if not ctx.branch(present):
+            return None
         if not ctx.branch(known):
             return None
         for k, h in self.handlers.items():
